@@ -98,3 +98,47 @@ example : No10 c04Sample := by
 theorem C04_tag10_in_body_splits :
     (feedAll RState.idle (wireOf [[56,61,70], [57,61,53], [51,53,61,48], [49,48,61,65], [49,48,61,48,48,48]])).2.length = 2 := by
   decide
+
+/-! ### damage is confined: the reader resynchronises at the next end-of-message field
+
+Whatever complete segments the reader has accumulated (`g`: garbage, a message whose CheckSum field was lost, a
+partial write of a peer that died and reconnected through a proxy …), the next well-formed message is handed over
+glued to `g` — one delivery, which the integrity check then judges (C03) — and everything after it is delivered
+exactly as from the idle state. A reader that kept part of `g`, or delivered twice, would break this. -/
+
+theorem feedAll_message_from (g : Bytes) (fields : List Bytes) (h : WFWire fields) :
+    feedAll { seg := [], msg := g } (wireOf fields) = (RState.idle, [g ++ wireOf fields]) := by
+  obtain ⟨init, l, rfl, hl, hinit⟩ := h.last
+  have hn := h.nosoh
+  have e : wireOf (init ++ [l]) = wireOf init ++ (l ++ [SOH]) := by simp [wireOf]
+  rw [e, feedAll_append]
+  rw [feedAll_fields_no10 g init (fun f hf => hn f (by simp [hf])) hinit]
+  simp only [List.nil_append]
+  rw [feedAll_field (g ++ wireOf init) l (hn l (by simp))]
+  simp [hl, RState.idle, List.append_assoc]
+
+theorem C04_resync (g : Bytes) (m : List Bytes) (ms : List (List Bytes)) (hm : WFWire m) (h : ∀ x ∈ ms, WFWire x)
+    (chunks : List Bytes) (hc : chunks.flatten = wireOf m ++ (ms.map wireOf).flatten) :
+    feedChunks { seg := [], msg := g } chunks = (RState.idle, (g ++ wireOf m) :: ms.map wireOf) := by
+  rw [C04_chunk, hc, feedAll_append, feedAll_message_from g m hm, C04_frame ms h]
+  simp
+
+/-- the same when the damage ends inside a segment (`p`: SOH-free bytes already read of a field that does not
+    look like `10=` even when completed by the first field of the next message): still exactly one glued delivery -/
+theorem C04_resync_midfield (g p f0 : Bytes) (rest : List Bytes) (ms : List (List Bytes))
+    (hp : SOH ∉ p) (h0 : SOH ∉ f0) (hpf : starts10 (p ++ f0) = false)
+    (hm : WFWire rest) (h : ∀ x ∈ ms, WFWire x) :
+    feedAll { seg := p, msg := g } (wireOf (f0 :: rest) ++ (ms.map wireOf).flatten)
+      = (RState.idle, (g ++ p ++ wireOf (f0 :: rest)) :: ms.map wireOf) := by
+  have e : wireOf (f0 :: rest) = f0 ++ [SOH] ++ wireOf rest := by simp [wireOf]
+  have hs : SOH ∉ p ++ f0 := by simp [hp, h0]
+  have h1 : feedAll { seg := p, msg := g } (f0 ++ [SOH]) = ({ seg := [], msg := g ++ (p ++ f0 ++ [SOH]) }, []) := by
+    have := feedAll_field g (p ++ f0) hs
+    rw [hpf] at this
+    simp only [Bool.false_eq_true, ite_false] at this
+    rw [feedAll_append] at this ⊢
+    rw [feedAll_noSOH _ (p ++ f0) hs] at this
+    rw [feedAll_noSOH _ f0 h0]
+    simpa [List.append_assoc] using this
+  rw [e, List.append_assoc, feedAll_append, h1, feedAll_append, feedAll_message_from _ rest hm, C04_frame ms h]
+  simp [List.append_assoc]
